@@ -34,8 +34,8 @@ class World:
                        "rendezvous_send", "library_rates_distributed", "library_tensor_distributed",
                        "negative_length", "single_rank", "return_index_list", "return_index_array",
                        "library_tensor_created_and_converted_at_different_levels", "same_list_object_distributed_again",
-                       "reduced_array_not_c_contiguous"]
-    required_faults = ["stalled_rank", "start_skew"]
+                       "reduced_array_not_c_contiguous", "other_helper_called_before_the_block_is_iterated"]
+    required_faults = ["stalled_rank", "start_skew", "refused_library_call_inside_distributed_loop"]
     components = {
         "real": ["quantarhei.core.parallel: DistributedConfiguration, start/close_parallel_region, block_distributed_range/list/array, "
                  "_calculate_ranges*, reduce/allreduce, collect_block_distributed_data",
@@ -79,18 +79,21 @@ class World:
                     ln = rng.randint(0, max(0, N - 1))   # shorter than the process count
                 else:
                     ln = rng.randint(0, 40)
-                phases.append({"op": "range", "start": start, "stop": start + ln, "nest": nest, "red": red, "layout": layout})
+                phases.append({"op": "range", "start": start, "stop": start + ln, "nest": nest, "red": red, "layout": layout,
+                               "inner_refusal": N <= 4 and rng.random() < 0.12})
             elif r < 0.65:
                 n = rng.choice([0, 1, 2, 3, 5, 8, 13, 21, N, N + 1, max(0, N - 1), 2 * N])
                 collect = rng.random() < 0.4 and n >= N
                 phases.append({"op": "list", "n": n, "ri": collect or rng.random() < 0.5, "nest": nest, "red": red,
-                               "collect": collect, "same_object": rng.random() < 0.5, "layout": layout})
+                               "collect": collect, "same_object": rng.random() < 0.5, "layout": layout,
+                               "interleave": rng.random() < 0.4, "inner_refusal": N <= 4 and rng.random() < 0.12})
             elif r < 0.82:
                 n = rng.choice([0, 1, 2, 3, 5, 8, 13, 21, N, N + 1, max(0, N - 1), 2 * N])
-                phases.append({"op": "array", "n": n, "ri": rng.random() < 0.5, "nest": nest, "red": red, "layout": layout})
+                phases.append({"op": "array", "n": n, "ri": rng.random() < 0.5, "nest": nest, "red": red, "layout": layout,
+                               "interleave": rng.random() < 0.4, "inner_refusal": N <= 4 and rng.random() < 0.12})
             elif r < 0.97 or N > 4:
                 phases.append({"op": "rates", "Na": rng.randint(2, 5), "Nk": rng.randint(1, 9),
-                               "nest": rng.choice([0, 0, 1]) if top == 0 else rng.choice([0, 1])})
+                               "nest": rng.choice([0, 0, 1]) if top == 0 else rng.choice([0, 1]), "noise": rng.random() < 0.4})
             else:
                 phases.append({"op": "tensor", "as_ops": rng.random() < 0.5, "nest": 0})
         if N <= 4 and rng.random() < 0.06:
@@ -143,6 +146,8 @@ class World:
             elif ph["op"] == "tensor_split":
                 refs[pi] = self._tensor({"as_ops": False}, self._system())
                 twins[pi] = [self._system() for _ in range(N)]
+            elif ph.get("inner_refusal"):
+                twins[pi] = [self._system() for _ in range(N)]
 
         srng = random.Random(program["sched_seed"])
         sim = fakempi.Sim(N, srng, ctx, p_yield=program["p_yield"],
@@ -180,6 +185,12 @@ class World:
                         else:
                             dlist = [3 * j + 1 for j in range(ph["n"])]
                         got = block_distributed_list(dlist, return_index=ph["ri"])
+                        if ph.get("interleave") and not ph.get("collect"):
+                            # "get my work list, do something else collectively, then loop": another helper call in between
+                            # (not before collect_block_distributed_data, which by contract refers to the LAST distribution)
+                            for _ in block_distributed_range(0, 3):
+                                pass
+                            ctx.probe("other_helper_called_before_the_block_is_iterated")
                         acc = numpy.zeros((2, 3), dtype=numpy.int64)
                         blk = []
                         local = {}
@@ -205,6 +216,10 @@ class World:
                     elif kind == "array":
                         arr = numpy.array([[j, 2 * j + 1] for j in range(ph["n"])], dtype=numpy.int64).reshape(ph["n"], 2)
                         got = block_distributed_array(arr, return_index=ph["ri"])
+                        if ph.get("interleave"):
+                            for _ in block_distributed_list([1, 2, 3, 4, 5]):
+                                pass
+                            ctx.probe("other_helper_called_before_the_block_is_iterated")
                         acc = numpy.zeros((2, 3), dtype=numpy.int64)
                         blk = []
                         for item in got:
@@ -239,6 +254,18 @@ class World:
                             close_parallel_region()
                         rec["result"] = numpy.asarray(RT.data).copy()
                         acc = None
+                    if acc is not None and ph.get("inner_refusal") and pi in twins:
+                        # inside the caller's distributed loop a library calculation is refused (cut-off time beyond the
+                        # time axis) and the caller carries on
+                        from quantarhei.qm import RedfieldRelaxationTensor
+                        agg = twins[pi][r]
+                        try:
+                            RedfieldRelaxationTensor(agg.get_Hamiltonian(), agg.get_SystemBathInteraction(), cutoff_time=1.0e9)
+                            refused_inner = False
+                        except Exception:
+                            refused_inner = True
+                        if refused_inner:
+                            ctx.fault("refused_library_call_inside_distributed_loop")
                     if acc is not None:
                         cfg = distributed_configuration()
                         # the accumulator the caller happens to have: C-ordered, Fortran-ordered, a transposed view
@@ -418,9 +445,16 @@ class World:
         KI = g.integers(-3, 4, size=(Nk, Na, Na)).astype(numpy.float64)
         KI = KI + numpy.transpose(KI, (0, 2, 1))
         cc = g.integers(0, 5, size=(Nk, Na, Na)).astype(numpy.float64)
+        rtol = 1e-3
+        if ph.get("noise"):
+            # bath components whose spectral density is slightly negative here and there (numerical noise below rtol):
+            # the library zeroes negative RATES below rtol, which must be decided on the reduced sum
+            cc = g.integers(-3, 4, size=(Nk, Na, Na)).astype(numpy.float64) / 128.0
+            rtol = 16.0
         RR = numpy.zeros((Na, Na), dtype=numpy.float64)
-        ssRedfieldRateMatrix(Na, Nk, KI, cc, 1e-3, numpy.zeros(1), RR)
-        return RR
+        werror = numpy.zeros(2)
+        ssRedfieldRateMatrix(Na, Nk, KI, cc, rtol, werror, RR)
+        return numpy.concatenate([RR.ravel(), werror]) if ph.get("noise") else RR
 
     def _system(self):
         import quantarhei as qr
